@@ -18,6 +18,8 @@ class C18(framework.PropertyCheck):
     def cases(self, rng, tier, n):
         for k in range(n):
             c = {'cf': gen_trace.gen_csv(rng), 'nl': rng.random() < 0.5}
+            if k % 5 == 3:
+                c['unload_after'] = True        # an id that is not loaded is "unloaded" while the capture is loaded: nothing changes
             if k % 6 == 3:
                 c['crlf'] = True         # an export written on another platform: lines end in CR LF (the file is opened as text)
             if k % 5 == 4:
@@ -54,6 +56,8 @@ class C18(framework.PropertyCheck):
         steps = [('loadcsv', 't0', text), ('eval', 'eorg', '(list SIGNALS MAX-INDEX INDEX)')]
         if case.get('history'):
             steps = [('loadcsv', 'zz', 'Time [s],other\n0.5,1\n0.75,0\n1.5,1\n'), ('eval', 'eorg', '(list other MAX-INDEX TS)'), steps[0], ('unload', 'zz'), steps[1]]
+        if case.get('unload_after') and not case.get('history'):
+            steps = [steps[0], ('unload', 'nosuch9'), ('unload', 'nosuch9')] + steps[1:]
         if case.get('failed_first'):
             steps = [('loadfail', 'q9', case['failed_first'])] + steps
         if case.get('unload_first'):
@@ -70,6 +74,8 @@ class C18(framework.PropertyCheck):
         n = len(den['timestamps'])
         if case.get('failed_first') or case.get('unload_first'):
             iobs = iobs[1:]
+        if case.get('unload_after') and not case.get('history'):
+            iobs = iobs[0:1] + iobs[3:]
         if case.get('history'):
             if len(iobs) < 4 or iobs[0] != ('ok',) or iobs[3] != ('ok',):
                 return {'what': 'loading / unloading the other capture failed', 'obs': iobs[:4]}
